@@ -205,6 +205,17 @@ impl Search {
                 let mut g2 = g.clone();
                 let sheet = g2.generate(Decimal::ZERO, Daily);
                 if !same(&sheet.pnl_drawdown, &current) { out.push((L_CUR, format!("tear sheet pnl_drawdown {}", show(&sheet.pnl_drawdown)), format!("PnL curve {}: decline in progress {}", show_curve(&curve), show(&current)))); }
+                // "the maximum drawdown is the largest of the drawdowns REPORTED": the sheet reports the completed ones and the decline in progress
+                let mut reported = completed.clone();
+                if let Some(c) = &current { reported.push(c.clone()); }
+                let (m, e) = (sheet.pnl_drawdown_max.clone().map(|m| m.0), max_of(&reported));
+                if !same(&m, &e) { out.push((L_MAX, format!("tear sheet max drawdown {}", show(&m)), format!("largest (first of equals) of the completed drawdowns {:?} and the decline in progress {} = {}", completed.iter().map(|d| d.value).collect::<Vec<_>>(), show(&current), show(&e)))); }
+                let ok = match (&sheet.pnl_drawdown_mean, mean_of(&reported)) {
+                    (None, None) => true,
+                    (Some(r), Some((v, ms))) => near(r.mean_drawdown, v) && (r.mean_drawdown_ms - ms).abs() <= reported.len() as i64,
+                    _ => false,
+                };
+                if !ok { out.push((L_MEAN, format!("tear sheet mean drawdown {:?}", sheet.pnl_drawdown_mean.as_ref().map(|m| (m.mean_drawdown, m.mean_drawdown_ms))), format!("mean (depth, ms) {:?} of the completed drawdowns and the decline in progress", mean_of(&reported)))); }
                 if known() { self.tear_sheet_generate_repeatable(&g, &completed, &current, &mut out); }
             }
             self.fails(&out, || what(k));
